@@ -138,7 +138,8 @@ static void check(Chk& k, const Spec& s, const Case& c, Prec prec) {
     // g*slerp(A,B,t) = slerp(gA,gB,t)
     const GroupT lhs = G * Ms, rhs = manif::interpolate(G * A, G * B, t, manif::INTERP_METHOD::SLERP);
     const MatL MG = ref_mat(s, toVL(G.coeffs()), prec);
-    const std::vector<LD> Sg = scale_mul(lin_scale_of(s, MatL(MG.cwiseAbs())), S);
+    // coordinates of g incl. the |v||t| cross term of SGal3 (the inverse of g*A goes through p - t v)
+    const std::vector<LD> Sg = scale_mul(scale_mul(ref_lin_scale_c(s, toVL(G.coeffs())), lin_scale_of(s, MatL(MG.cwiseAbs()))), S);
     k.expect("slerp left-equivariant", (double)ref_group_err(s, ref_mat(s, toVL(lhs.coeffs()), prec), ref_mat(s, toVL(rhs.coeffs()), prec), Sg), tol, "g*slerp(A,B,t) != slerp(g*A,g*B,t)");
   }
   // ---- smoothing polynomial
